@@ -178,21 +178,26 @@ PROPS = {
         level='proof',
         units=['path:topology::Topology::*', 'nameglob:LIST.NEIGHBOR*'],
         explanation='decompose_index: digits below the edge length, panic-free for an edge length >= 1; euclidean_distance == sqrt of the accumulated squared differences (f32 operations uninterpreted), None on a length mismatch; '
-                    'find_neighbors: None for invalid parameters, every returned index in 0..ntotal, strictly ascending (hence no repeats), panic-free, terminating (R7: `usize as f32` / `f32 as usize` go through wrapper functions whose bodies are the casts); LIST.NEIGHBOR* operand handling and result stack',
-        not_decided=['contains-the-centre, symmetry, monotonicity in the radius, agreement with brute-force geometry: depend on powf/sqrt/ceil values (uninterpreted in Verus, over-approximated by CBMC)',
-                     'bijectivity of the decomposition (mixed-radix recombination)'],
-        assumptions=['float fact L3 (assume in find_neighbors, NOT checked by any installed tool): for ntotal >= 1, ndim >= 1 the edge length ceil(ntotal^(1/ndim)) is >= 1'],
+                    'decompose_index returns exactly the mixed-radix digits index / nedge^k % nedge (None exactly when a power overflows); '
+                    'find_neighbors: Some exactly for valid parameters without power overflow, every returned index in 0..ntotal, strictly ascending (hence no repeats), and the result is EXACTLY the ascending sequence of the indices i in 0..ntotal with '
+                    'sqrt(sum_k (centre_k - i_k)^2) <= radius over the digit vectors in the hypercube of edge ceil(ntotal^(1/ndim)) (f32 operations uninterpreted, in the order the code applies them), panic-free, terminating (R7: `usize as f32` / `f32 as usize` go through wrapper functions whose bodies are the casts); LIST.NEIGHBOR*IDS pushes exactly find_neighbors(max(size,0), clamp(dims,0,size), clamp(index,0,size-1), max(radius,0)); *BVALS/IVALS/FVALS push the addressed value of the record at each neighbour CODE position (neighbours beyond the CODE stack skipped); nothing is pushed for an invalid topology',
+        not_decided=['contains-the-centre, symmetry, monotonicity in the radius: need IEEE facts about sqrt/powf/<= (x-x = 0, powf(0,2) = 0, transitivity ...) that are uninterpreted in Verus and over-approximated by CBMC; "smallest enclosing hypercube" is the value of ceil(powf(..)), uninterpreted',
+                     '*VALS with a negative position operand (`as usize` of a negative i32): only shapes',
+                     'bijectivity of the decomposition: the digits are proved to be the mixed-radix digits; that distinct indices below nedge^ndim have distinct digit vectors is not proved as a lemma'],
+        assumptions=['float fact L3 (assume in find_neighbors, NOT checked by any installed tool): for ntotal >= 1, ndim >= 1 the edge length ceil(ntotal^(1/ndim)) is >= 1',
+                     'float fact L4 (axiom ax_f32_constants) and the assumed contract of f32::clamp: checked by the Kani harness l4_f32_constants in the thorough tier (not used on the current tree; they keep refactors that use the constants decidable)'],
+        thorough=True,
     ),
     'C15': dict(
         level='proof',
-        units=['nameglob:*VECTOR.*', 'path:list::load_items'],
+        units=['nameglob:*VECTOR.*', 'nameglob:LIST.NEIGHBOR*', 'path:list::load_items'],
         classes=['post'],
         label_re=r'bound\.alloc|at-most-one-item-per-id',
         explanation='the expressible part of C15: every vector a step creates is no longer than the vector operands it consumed plus the number of scalar operands plus one '
                     '(bound.alloc clauses: element-wise operations, NOT, APPEND, SET*INSERT, FROMINT, load_items) -- i.e. allocation is bounded by the state, not by operand magnitude; '
-                    'ONES / ZEROS / RAND / SINE vectors are sized by an INTEGER operand by design: one known finding each',
+                    'ONES / ZEROS / RAND / SINE / LIST.NEIGHBOR*IDS vectors are sized by an INTEGER operand by design: one known finding each',
         not_decided=['peak RSS, wall-clock time and host stack depth of a step: not expressible as a contract',
                      'no CODE/EXEC item grows beyond max_points_in_program: the limit is consulted nowhere (CODE.APPEND/LIST/CONS, EXEC.S/Y, LIST.ADD ... grow items freely); not encoded as obligations',
-                     'LIST.NEIGHBOR* allocate by an INTEGER operand too (find_neighbors result <= ntotal elements); no bound.alloc clause is stated for them'],
+                     'LIST.NEIGHBOR*BVALS/IVALS/FVALS: the pushed vector is proved no longer than the CODE stack is deep, but the neighbourhood they compute on the way (find_neighbors) is as large as the size operand, like NEIGHBOR*IDS (known finding)'],
     ),
 }
